@@ -15,7 +15,7 @@ const GRID: i64 = 600;
 fn cmdv(args: &[&[u8]]) -> V { V::cmd(args) }
 fn cmdo(args: &[Vec<u8>]) -> V { V::Array(args.iter().map(|a| V::Bulk(a.clone())).collect()) }
 
-struct G { r: Rng, next_el: u32, nkeys: usize }
+struct G { r: Rng, next_el: u32, nkeys: usize, maybe_str: Vec<Vec<u8>> }
 impl G {
     fn key(&mut self) -> Vec<u8> { LKEYS[self.r.below(self.nkeys as u64) as usize].to_vec() }
     fn els(&mut self, n: usize) -> Vec<Vec<u8>> { (0..n).map(|_| { self.next_el += 1; format!("e{}", self.next_el).into_bytes() }).collect() }
@@ -25,6 +25,20 @@ impl G {
         let n = match self.r.below(6) { 0 | 1 | 2 => 1, 3 | 4 => 2, _ => 3 };
         a.extend(self.els(n));
         cmdo(&a)
+    }
+    /// a push made by a script (the DSL syntax of C12 that the model parses): EVAL <script> 1 key element
+    fn script_push(&mut self) -> V {
+        let name: &[u8] = if self.r.chance(1, 2) { b"LPUSH" } else { b"RPUSH" };
+        let mut lit = String::from("\"");
+        for c in name { lit += &format!("\\{:03}", c); }
+        lit.push('"');
+        let src = format!("local r={{}}\nr[1]=redis.call({},KEYS[1],ARGV[1])\nreturn r[1]", lit);
+        // not on a key that may hold a string by now: the error code of a failing redis.call is C12's subject
+        // (Model/Lua.v), here the script only has to push
+        let k = self.key();
+        if self.maybe_str.contains(&k) { return self.push(); }
+        let e = self.els(1);
+        cmdo(&[b"EVAL".to_vec(), src.into_bytes(), b"1".to_vec(), k, e[0].clone()])
     }
     fn pop(&mut self) -> V {
         let k = if self.r.chance(1, 14) { b"s".to_vec() } else { self.key() };
@@ -54,7 +68,7 @@ pub fn gen(seed: u64, n: usize, _tier: &str) -> Vec<Case> {
     let mut cases = vec![];
     let mut root = Rng::new(seed);
     for id in 0..n {
-        let mut g = G { r: root.fork(), next_el: 0, nkeys: 2 + (id % 2) };
+        let mut g = G { r: root.fork(), next_el: 0, nkeys: 2 + (id % 2), maybe_str: vec![] };
         let nc = 2 + g.r.below(3) as i64;
         let mut ops: Vec<Vec<Tok>> = vec![conn_op(OBS)];
         for c in 1..=nc { ops.push(bconn_op(c)); }
@@ -63,6 +77,19 @@ pub fn gen(seed: u64, n: usize, _tier: &str) -> Vec<Case> {
         // now and then one client works in database 1
         if g.r.chance(1, 6) { let c = 1 + g.r.below(nc as u64) as i64; ops.push(bsend_op(c, &[cmdv(&[b"SELECT", b"1"])])); ops.push(brecv_op(c)); }
         let mut sleeps = 0; let mut closes = 0; let mut since = 0;
+        // one history in eight starts with two registrations that expire in the SAME deadline scan (a repeated key:
+        // the scans run every iteration, so two clients never expire together) in front of a client that waits
+        // longer: get_expired_clients removes several entries of one queue by index
+        if id % 8 == 5 {
+            let k = g.key();
+            let op = if g.r.chance(1, 2) { b"BLPOP".to_vec() } else { b"BRPOP".to_vec() };
+            ops.push(bsend_op(1, &[cmdo(&[op.clone(), k.clone(), k.clone(), b"0.3".to_vec()])]));
+            ops.push(bsend_op(2, &[cmdo(&[op.clone(), k.clone(), if g.r.chance(1, 2) { b"0".to_vec() } else { b"0.9".to_vec() }])]));
+            if nc >= 3 && g.r.chance(1, 2) { ops.push(bsend_op(3, &[cmdo(&[op, k.clone(), b"0".to_vec()])])); }
+            ops.push(bsleep_op(GRID)); sleeps += 1;
+            ops.push(brecv_op(1)); ops.push(brecv_op(2));
+            ops.push(vec![b("BDUMP"), i(0)]);
+        }
         let steps = 8 + g.r.below(28);
         for _ in 0..steps {
             let c = 1 + g.r.below(nc as u64) as i64;
@@ -98,28 +125,36 @@ pub fn gen(seed: u64, n: usize, _tier: &str) -> Vec<Case> {
                     // a key the clients wait on becomes a string for a while, or is deleted
                     let k = g.key();
                     match g.r.below(3) {
-                        0 => ops.push(cmd_op(OBS, &[b"SETNX", &k, b"x"])),
-                        _ => { ops.push(cmd_op(OBS, &[b"LRANGE", &k, b"0", b"-1"])); ops.push(cmd_op(OBS, &[b"DEL", &k])); }
+                        0 => { ops.push(cmd_op(OBS, &[b"SETNX", &k, b"x"])); g.maybe_str.push(k.clone()); }
+                        _ => { ops.push(cmd_op(OBS, &[b"LRANGE", &k, b"0", b"-1"])); ops.push(cmd_op(OBS, &[b"DEL", &k])); g.maybe_str.retain(|x| x != &k); }
                     }
                 }
                 36 => {
-                    // requests written behind a blocking call in the SAME write: the server runs them although the
-                    // connection has just become blocked (class pipelined-behind-block)
-                    let q1 = g.bpop(); let q2 = if g.r.chance(1, 2) { g.push() } else { g.bpop() };
+                    // requests written behind a blocking call in the SAME write: they wait until the connection is
+                    // unblocked (939522b; class pipelined-behind-block before)
+                    // (the call in front cannot time out: what waits behind it would run at its deadline,
+                    // between two instants of the logical clock, racing with the other deadlines)
+                    let mut q1 = g.bpop();
+                    if let V::Array(l) = &mut q1 { if let Some(V::Bulk(t)) = l.last_mut() { if t == b"0.3" || t == b"0.9" { *t = b"0".to_vec(); } } }
+                    let q2 = if g.r.chance(1, 2) { g.push() } else { g.bpop() };
                     ops.push(bsend_op(c, &[q1, q2])); if g.r.chance(1, 2) { ops.push(brecv_op(c)); }
                 }
                 37 => { ops.push(bsend_op(c, &[cmdv(&[b"LLEN", &g.key()])])); ops.push(brecv_op(c)); }
+                39 => { let q = g.script_push(); if g.r.chance(1, 2) { ops.push(cmd_frame_op(OBS, &q)); } else { ops.push(bsend_op(c, &[q])); ops.push(brecv_op(c)); } }
                 38 => {
                     // the key of a wake-up under way turns into a string before the wake-up runs
                     let k = g.key(); let e = g.els(1);
                     let b = vec![cmdo(&[b"RPUSH".to_vec(), k.clone(), e[0].clone()]), cmdo(&[b"LPOP".to_vec(), k.clone()]), cmdo(&[b"SETNX".to_vec(), k.clone(), b"x".to_vec()])];
+                    g.maybe_str.push(k.clone());
                     ops.push(bsend_op(c, &b)); ops.push(brecv_op(c));
                 }
                 _ => { let q = g.bpop(); ops.push(bsend_op(c, &[q])); }
             }
         }
         if g.r.chance(1, 2) && sleeps < 7 { ops.push(bsleep_op(GRID)); }
-        for c in 1..=nc { if open[c as usize] { ops.push(brecv_op(c)); } }
+        // every connection is read once more - also the ones closed above: a BCLOSE is skipped at run time when the
+        // connection has requests waiting, and what it receives later must be seen by the judge
+        for c in 1..=nc { ops.push(brecv_op(c)); }
         ops.push(vec![b("BDUMP"), i(0)]);
         for db in 0..2 {
             ops.push(cmd_op(OBS, &[b"SELECT", if db == 0 { b"0" } else { b"1" }]));
@@ -165,6 +200,7 @@ pub fn judge(c: &Case, outs: &[Vec<Tok>]) -> Vec<String> {
                got: &mut Vec<(Vec<u8>, usize)>, dbof: &mut HashMap<i128, i64>, conn: i128) {
         match (&rq.name[..], v) {
             (b"LPUSH", V::Int(n)) | (b"RPUSH", V::Int(n)) if *n > 0 => { for e in &rq.args[1..] { acked.push((e.clone(), ix)); } }
+            (b"EVAL", V::Int(n)) if *n > 0 && rq.args.len() == 4 => acked.push((rq.args[3].clone(), ix)),
             (b"LPOP", V::Bulk(e)) | (b"RPOP", V::Bulk(e)) => got.push((e.clone(), ix)),
             (b"BLPOP", V::Array(l)) | (b"BRPOP", V::Array(l)) => {
                 match (l.get(0), l.get(1)) {
@@ -200,6 +236,7 @@ pub fn judge(c: &Case, outs: &[Vec<Tok>]) -> Vec<String> {
                     let nm = req_name(rq);
                     let args: Vec<Vec<u8>> = match rq { V::Array(l) => l.iter().skip(1).map(|x| match x { V::Bulk(b) => b.clone(), _ => b"?".to_vec() }).collect(), _ => vec![] };
                     if (nm == b"LPUSH" || nm == b"RPUSH") && args.len() >= 2 { for e in &args[1..] { *sent.entry(e.clone()).or_insert(0) += 1; } }
+                    if nm == b"EVAL" && args.len() == 4 { *sent.entry(args[3].clone()).or_insert(0) += 1; }
                     if blocked_before || pend.get(&conn).map_or(false, |q| q.iter().any(|r| is_block(&r.name) && r.oms >= 0 && !r.queued)) { behind_block = true; }
                     let in_multi = *send_multi.get(&conn).unwrap_or(&false);
                     if nm == b"MULTI" { send_multi.insert(conn, true); }
@@ -246,6 +283,7 @@ pub fn judge(c: &Case, outs: &[Vec<Tok>]) -> Vec<String> {
                 let args: Vec<Vec<u8>> = match &rq { V::Array(l) => l.iter().skip(1).map(|x| match x { V::Bulk(b) => b.clone(), _ => b"?".to_vec() }).collect(), _ => vec![] };
                 let mut p2 = 0; let v = match V::dec(out, &mut p2) { Some(v) => v, None => continue };
                 if (nm == b"LPUSH" || nm == b"RPUSH") && args.len() >= 2 { for e in &args[1..] { *sent.entry(e.clone()).or_insert(0) += 1; } }
+                if nm == b"EVAL" && args.len() == 4 { *sent.entry(args[3].clone()).or_insert(0) += 1; }
                 let r = Req { name: nm.clone(), args: args.clone(), t: tok_int(&op[2]), oms: -2, db: 0, queued: false };
                 account(&r, &v, ix, tok_int(&op[2]), &c.id, &mut fails, &mut acked, &mut got, &mut dbof, tok_int(&op[1]));
                 if nm == b"LRANGE" {
